@@ -69,18 +69,20 @@ def scan_forbidden():
     return bad
 
 
+def deps_of(prop_file):
+    sys.path.insert(0, os.path.join(V, "lib"))
+    import coqbuild
+    return coqbuild.deps().get(prop_file.replace(".v", ".vo"), [])
+
+
 def prove(prop_file, timeout):
     """Rebuild the property's theorem file (and whatever it depends on).  Returns dict."""
     res = {"ok": False, "theorems": [], "assumptions": {}, "log": "", "axioms": []}
-    rc, out, dt = sh([os.path.join(V, "lib", "build_coq.sh"), prop_file.replace(".v", ".vo")], timeout=timeout)
-    # make sure the theorem file itself is re-checked on every run, output captured
-    vo = os.path.join(COQ, prop_file.replace(".v", ".vo"))
+    # dependencies first (only what is stale), then the theorem file itself is re-checked on
+    # every run with its output (Print Assumptions) captured
+    rc, out, dt = sh([os.path.join(V, "lib", "coqbuild.py")] + deps_of(prop_file), timeout=timeout)
     if rc == 0:
-        try:
-            os.remove(vo)
-        except FileNotFoundError:
-            pass
-        rc, out2, dt2 = sh([os.path.join(V, "lib", "build_coq.sh"), prop_file.replace(".v", ".vo")], timeout=timeout)
+        rc, out2, dt2 = sh([os.path.join(V, "lib", "coqbuild.py"), "-f", prop_file.replace(".v", ".vo")], timeout=timeout)
         out = out2 if rc == 0 else out + out2
         dt += dt2
     res["log"] = out[-6000:]
@@ -193,7 +195,7 @@ def main(REG):
                 problems.append({"kind": "correspondence", "what": "harness error: " + he})
             files = summary.get("case_files") or []
             if files:
-                lib_ok = sh([os.path.join(V, "lib", "build_coq.sh")] + cfg.get("model_vos", []), timeout=2400) if cfg.get("model_vos") else (0, "", 0)
+                lib_ok = sh([os.path.join(V, "lib", "coqbuild.py")] + cfg.get("model_vos", []), timeout=2400) if cfg.get("model_vos") else (0, "", 0)
                 if lib_ok[0] != 0:
                     problems.append({"kind": "correspondence", "what": "model files do not compile", "log_tail": lib_ok[1][-1500:]})
                 else:
@@ -252,7 +254,7 @@ def main(REG):
         "coverage": {
             "obligations": max(obligations, 1), "discharged": discharged,
             "theorems": pr["theorems"],
-            "checker_cmd": "make -C coq %s (coq_makefile, coqc 8.16.1, full .vo build; the property file is removed and re-checked on every run)" % cfg["props"].replace(".v", ".vo"),
+            "checker_cmd": "lib/coqbuild.py -f %s (coqc 8.16.1, full .vo compilation of the property file on every run, stale dependencies rebuilt first; setup builds everything through coq_makefile + make)" % cfg["props"].replace(".v", ".vo"),
             "trusted_base": tb,
             "evaluations": int(summary.get("evaluations", 0)),
             "distinct_nontrivial": int(summary.get("distinct_nontrivial", 0)),
